@@ -375,6 +375,7 @@ theorem hasPending_lr (s : BSt) : lr (hasPending s).1 = lr s := by
     unfold refreshCache; split <;> rfl
 
 theorem BalInv.closed (hW : WtOK W) (c : Int) : Closed (BalInv W c) where
+  lastFlush := fun s n h => h.lr rfl
   front := fun s f h => by unfold BalInv; rw [applyFront_bal hW]; exact h
   siteCnt := fun s x h => h.lr rfl
   emitInj := fun s a b c d h => by unfold BalInv; rw [bal_emit, hW.inj]; unfold BalInv at h; omega
